@@ -82,11 +82,13 @@ impl crate::inflight::SizedRequest for Decoded {
     }
 
     fn is_publish(&self) -> bool {
-        matches!(self, Decoded::Publish(..))
+        // only publish with incomplete payload is followed by payload chunks
+        matches!(self, Decoded::Publish(pkt, payload, _) if pkt.payload_size as usize != payload.len())
     }
 
     fn is_chunk(&self) -> bool {
-        matches!(self, Decoded::PayloadChunk(..))
+        // last chunk completes publish streaming
+        matches!(self, Decoded::PayloadChunk(_, false))
     }
 }
 
